@@ -251,6 +251,25 @@ def run(ck):
     from . import c16
     c16.r3(ck, rule="C15-R7")
     r8_existed_never_rewritten(ck)
+    r8b_existed_is_what_the_load_answered(ck)
+
+
+def r8b_existed_is_what_the_load_answered(ck, rule="C15-R8"):
+    """... and when the record is built from the disk it says what the load answered: a file that could be loaded existed (`true`, a
+    constant - not a guess from its content such as "it is empty"); only `new_non_existent()` says otherwise.  A file taken for absent
+    is not unlinked before it is written: created over the existing inode."""
+    gol = ck.anchor("ModifiedFiles::<'arena, 'config>::get_or_load")
+    if gol is None:
+        return
+    news = [(bb, t) for bb, t in gol.calls() if (callee_of(t).get("rpath") or "").startswith("libpatch::modified_file::ModifiedFile::<") and (callee_of(t).get("rpath") or "").endswith(">::new") and not gol.blocks[bb]["cleanup"]]
+    ck.floor(rule, "records built from loaded data in get_or_load", len(news), 1)
+    for bb, t in news:
+        a = arg_by_name(ck.prog, t, "existed", 1)
+        e = df.operand_expr(gol, a) if a is not None else None
+        ck.require(df.is_const(e, 1, True), rule, "a file that could be loaded is recorded as existing",
+                   "get_or_load records `existed` = %s for a file it has just loaded: when that is false for a file that is on disk, the file is "
+                   "not unlinked before it is written and its inode (shared with every hard link) is rewritten in place" % df.show(e, 80),
+                   gol.where(t), ok_detail="existed = true")
 
 
 def r8_existed_never_rewritten(ck, rule="C15-R8"):
